@@ -861,8 +861,10 @@ def make_shared(n, decs, full=False, data_width=8, address_width=2, register=Fal
     mod = cls(masters, [(d.fn(bus), s) for d, s in zip(decs, slaves)], **args)
     name = kw.pop("name", None) or "%sShared %dx%d/%db" % (_tag(full), n, m, data_width)
     lean_open = "shared %d %d %d %d %d %s" % (n, m, int(full), data_width, address_width, " ".join(d.word() for d in decs))
-    return AxiFabric(name, "shared", mod, masters, slaves, decs, lean_open, full=full, data_width=data_width,
+    inst = AxiFabric(name, "shared", mod, masters, slaves, decs, lean_open, full=full, data_width=data_width,
                      address_width=address_width, m_address_widths=maw, id_width=id_width, bus=bus, **kw)
+    inst.timeout = timeout
+    return inst
 
 
 def make_xbar(n, decs, full=False, data_width=8, address_width=2, timeout_arg=None, register=False,
@@ -1037,8 +1039,14 @@ class AxiEnv:
     for the model correspondence only.
     Stall/issue probabilities change every 128 cycles (0/10/50/90/100 % sweeps)."""
 
-    def __init__(self, inst, max_out=8, domain=None, garbage=True):
+    def __init__(self, inst, max_out=8, domain=None, garbage=True, max_stall=None):
         self.inst = inst
+        # healthy-bus mode: at least every (max_stall + 1)-th cycle ALL slaves are ready on aw, w and ar, so that no
+        # cycle-by-cycle "something is stalled" condition (what AXI(Lite)Timeout counts: it accumulates over channels
+        # and over successive transfers) lasts longer than `max_stall` cycles; used with a finite bus timeout
+        # t > max_stall + 1, which then must never fire
+        self.max_stall = max_stall
+        self.since_all_ready = 0
         self.n, self.m = inst.n, inst.m
         self.full = inst.full
         self.max_out = max_out
@@ -1246,15 +1254,20 @@ class AxiEnv:
                                 b_ready=1 if self.sticky[i] else int(rng.random() < p_mready),
                                 ar=(ar[0], ar[1]) if ar else None, idle_ar=(g(maw), g(self.ar_w)),
                                 r_ready=1 if self.sticky[i] else int(rng.random() < p_mready)))
+        force_ready = self.max_stall is not None and self.since_all_ready >= self.max_stall
+        all_ready = True
         for j in range(m):
             if self.b_cur[j] is None and self.s_b[j] < min(self.s_aw[j], self.s_wl[j]) and rng.random() < p_resp:
                 self.b_cur[j] = rng.getrandbits(self.b_w)
             if self.r_cur[j] is None and self.rq[j] and rng.random() < p_resp:
                 lastbit = int(self.rq[j][0] == 1) if self.full else rng.getrandbits(1)
                 self.r_cur[j] = (lastbit, rng.getrandbits(self.r_w))
-            parts.append(s_part(aw_ready=int(rng.random() < p_sready), w_ready=int(rng.random() < p_sready),
-                                b=self.b_cur[j], idle_b=g(self.b_w), ar_ready=int(rng.random() < p_sready),
+            rdy = [1, 1, 1] if force_ready else [int(rng.random() < p_sready) for _ in range(3)]
+            all_ready = all_ready and rdy == [1, 1, 1]
+            parts.append(s_part(aw_ready=rdy[0], w_ready=rdy[1],
+                                b=self.b_cur[j], idle_b=g(self.b_w), ar_ready=rdy[2],
                                 r=self.r_cur[j], idle_r=(g(1), g(self.r_w))))
+        self.since_all_ready = 0 if all_ready else self.since_all_ready + 1
         return tuple(itertools.chain.from_iterable(parts))
 
 
